@@ -22,6 +22,8 @@ type IC struct {
 	SP   *ssa.Package
 	// Aliases maps the historical key of a renamed anchor function to its current key.
 	Aliases map[string]string
+	// FixFi: the function holding the per-interpreter overrides (fixStdlib), set by the C13 rules.
+	FixFi *FuncInfo
 }
 
 var icCache = map[string]*IC{}
